@@ -546,10 +546,14 @@ def run_bounded(ctx):
             if os.path.exists(p) and not (os.path.isfile(p) and os.path.getsize(p) == 0):
                 tasks.append((root, "foreign:" + f, ctx.tier))
         many_tasks = [(root, n, m, ctx.tier) for n in MANY for m in MANY_OPENS]
-        with cf.ProcessPoolExecutor(max_workers=min(16, os.cpu_count() or 4)) as ex:
-            results = list(ex.map(run_dataset, tasks)) + list(ex.map(run_many, many_tasks))
+        from runtime.harness import robust_map, WorkerDied
+        nw = min(16, os.cpu_count() or 4)
+        results = robust_map(run_dataset, tasks, nw) + robust_map(run_many, many_tasks, nw)
+        for k, r in enumerate(results):
+            if isinstance(r, WorkerDied):      # the real library killed the process: a failing case, not a checker crash
+                results[k] = [({"ds": str(r.task[1]), "kind": "process died"}, False, r.what(), True, None)]
     for res in results:
         for feats, ok, what, nontrivial, rp in res:
-            with Case(ctx, G, feats, snippet=None if ok else _snippet(*rp), nontrivial=nontrivial, contract=CONTRACT) as c:
+            with Case(ctx, G, feats, snippet=None if ok or rp is None else _snippet(*rp), nontrivial=nontrivial, contract=CONTRACT) as c:
                 if not ok:
                     c.fail(what)
